@@ -146,6 +146,21 @@ def check_stack(ctx, case_seed):
             lines.append('%s = D%d(%s)' % (fn, i, fn))
         lines.append('plain = None')
         lines.append('def plain_%s(%s): return (%r, dict(locals()))' % (fn, sigs.render(fp), fn))
+    elif placement == 'function' and not dress_line and rnd.random() < 0.2:
+        # what gets decorated is a callable OBJECT whose __call__ (an ordinary or a static method) forwards to the function
+        static = rnd.random() < 0.5
+        ctx.count('C13.decorated_callable_objects')
+        lines += [fdef.replace('def %s(' % fn, 'def target_%s(' % fn, 1), 'class Obj(object):']
+        if static:
+            lines += ['    @staticmethod', '    def __call__(*args, **kwargs): return target_%s(*args, **kwargs)' % fn]
+        else:
+            lines += ['    def __call__(self, *args, **kwargs): return target_%s(*args, **kwargs)' % fn]
+        expr = 'Obj()'
+        for i in reversed(range(depth)):
+            expr = 'D%d(%s)' % (i, expr)
+        lines += ['%s = %s' % (fn, expr), 'plain = None']
+        lines.append('def plain_%s(%s): return (%r, dict(locals()))' % (fn, sigs.render(fp), fn))
+        peeked = 'callable object with %s __call__' % ('a static' if static else 'an ordinary')
     elif placement == 'function':
         lines += deco_lines + [fdef, 'plain = None']
         lines.append('def plain_%s(%s): return (%r, dict(locals()))' % (fn, sigs.render(fp), fn))
@@ -330,7 +345,14 @@ def check_combination(ctx, case_seed):
             ps.append(('kwargs', VK, None, None))
         ps = tuple(ps)
         plists.append(ps)
-        lines.append('def c%d(%s): return (%r, arg)' % (i, sigs.render(ps), 'c%d' % i))
+        # "propagates its exceptions": now and then a member raises -- whatever it raises comes out unchanged
+        # (StopIteration included: it must not be taken for the end of anything on the way)
+        raises = rnd.choice((None, None, None, None, 'StopIteration', 'KeyError', 'ValueError', 'StopIteration'))
+        if raises:
+            ctx.count('C13.combination_member_raises')
+            lines.append('def c%d(%s): raise %s((%r, arg))' % (i, sigs.render(ps), raises, 'c%d' % i))
+        else:
+            lines.append('def c%d(%s): return (%r, arg)' % (i, sigs.render(ps), 'c%d' % i))
     nest = k == 3 and rnd.random() < 0.5
     member_deco = None
     if nest:
